@@ -187,6 +187,68 @@ func c17One(c *Ctx, rng *rand.Rand, m *Model, stream string) {
 		rows = append(rows, row)
 	}
 	c.D.Add("corr:ppaths/"+stream, L("ppaths", canon), strings.Join(rows, ";"), input)
+	// faithfulness, read off the rewrite itself (not the port): everything a relation's rewrite refers to
+	// reaches the relation — a computed relation, every parent type's relation of a tuple-to-userset (each
+	// restriction of the tupleset, repeated types and conditions included), every restriction of a
+	// direct assignment
+	hasRel := func(tn, rn string) bool {
+		for _, t := range m.Types {
+			if t.Name == tn {
+				for _, r := range t.Rels {
+					if r.Name == rn {
+						return true
+					}
+				}
+			}
+		}
+		return false
+	}
+	for _, t := range m.Types {
+		restrOf := map[string][]Ref{}
+		for _, r := range t.Rels {
+			if !t.MetaNil && !r.NoMeta {
+				restrOf[r.Name] = r.Restr
+			}
+		}
+		for _, r := range t.Rels {
+			target := t.Name + "#" + r.Name
+			var walk func(u *U)
+			need := func(src, why string) {
+				if p, err := g.PathExists(src, target); err != nil || !p {
+					fail("the graph has no path from "+src+" to "+target+" although the rewrite of "+target+" contains "+why, map[string]any{"dot": dot})
+				}
+			}
+			walk = func(u *U) {
+				if u == nil {
+					return
+				}
+				switch u.Kind {
+				case "cu":
+					need(t.Name+"#"+u.Rel, "the computed relation "+u.Rel)
+				case "ttu":
+					for _, ref := range restrOf[u.Tupleset] {
+						if hasRel(ref.Type, u.Rel) {
+							need(ref.Type+"#"+u.Rel, u.Rel+" from "+u.Tupleset+" with parent type "+ref.Type)
+						}
+					}
+				case "this":
+					for _, ref := range restrOf[r.Name] {
+						src := ref.Type
+						if ref.Wildcard {
+							src += ":*"
+						} else if ref.Rel != "" {
+							src += "#" + ref.Rel
+						}
+						need(src, "the direct restriction "+src)
+					}
+				}
+				for _, ch := range u.Children {
+					walk(ch)
+				}
+			}
+			walk(r.Rewrite)
+		}
+	}
 	// lookup: exactly the type, relation and wildcard nodes
 	for _, n := range nodes {
 		got, err := g.GetNodeByLabel(n.Label())
